@@ -579,6 +579,7 @@ def bool_return_bbs(body, value):
 # backward slices (P9 / P10)
 # --------------------------------------------------------------------------
 PURE_THROUGH = {
+    'core::ops::index::Index::index', 'core::ops::index::IndexMut::index_mut',
     'core::ops::try_trait::Try::branch', 'core::ops::try_trait::FromResidual::from_residual', 'fmt::Try::into_result',
     'core::option::Option::map', 'core::option::Option::and_then', 'core::option::Option::ok_or',
     'core::option::Option::ok_or_else', 'core::option::Option::copied', 'core::option::Option::cloned',
@@ -593,6 +594,61 @@ PURE_THROUGH = {
     'core::borrow::Borrow::borrow', 'core::option::Option::as_ref', 'core::option::Option::unwrap',
     'core::option::Option::as_mut', 'core::num::nonzero::NonZero::get', 'core::num::nonzero::NonZero::new',
 }
+
+
+def _mut_borrow_calls(body, local):
+    """calls that receive (as first argument) a `&mut` derived from `local`
+    (directly or through index_mut / deref_mut / as_mut_slice style adapters):
+    they may store their other arguments into it."""
+    cache = getattr(body, '_mbc', None)
+    if cache is None:
+        cache = body._mbc = {}
+    if local in cache:
+        return cache[local]
+    refs = set()
+    for i, j, s in body.stmts():
+        pl, rv = s[0], s[1]
+        if rv.get('op') == 'ref' and rv.get('mut') and rv['pl'][0] == local and len(pl) == 1:
+            refs.add(pl[0])
+    out = []
+    if refs:
+        changed = True
+        while changed:
+            changed = False
+            for i, j, s in body.stmts():
+                pl, rv = s[0], s[1]
+                if len(pl) != 1 or pl[0] in refs:
+                    continue
+                src = None
+                if rv.get('op') == 'use':
+                    src = op_place(rv['a'][0])
+                elif rv.get('op') == 'ref':
+                    src = rv['pl']
+                if src and src[0] in refs:
+                    refs.add(pl[0])
+                    changed = True
+            for i, blk in enumerate(body.bbs):
+                t = blk['t']
+                if t['t'] != 'call' or blk.get('c') or not t['a']:
+                    continue
+                a0 = op_place(t['a'][0])
+                if a0 and a0[0] in refs:
+                    cn = callee_of(t)
+                    if cn.endswith('index_mut') or cn.endswith('deref_mut') or cn.endswith('as_mut_slice') or cn.endswith('as_mut') or cn.endswith('access_mut'):
+                        if len(t['d']) == 1 and t['d'][0] not in refs:
+                            refs.add(t['d'][0])
+                            changed = True
+        for i, blk in enumerate(body.bbs):
+            t = blk['t']
+            if t['t'] != 'call' or blk.get('c') or not t['a']:
+                continue
+            a0 = op_place(t['a'][0])
+            if a0 and a0[0] in refs and len(t['a']) > 1:
+                cn = callee_of(t)
+                if not (cn.endswith('index_mut') or cn.endswith('deref_mut')):
+                    out.append((i, t))
+    cache[local] = out
+    return out
 
 
 def sources(body, operand_or_local, through=(), depth=60, _seen=None):
@@ -656,11 +712,16 @@ def sources(body, operand_or_local, through=(), depth=60, _seen=None):
                 out.add(('call', cn, bb))
                 if 'r' in payload:
                     out.add(('call', payload['r'], bb))
-                if cn in through or payload.get('r') in through:
+                if cn in through or payload.get('r') in through or cn.endswith('>::bits') or cn.endswith('>::from_bits_truncate'):
                     for a in payload['a']:
                         from_operand(a, d - 1)
             elif kind == 'yield':
                 out.add(('resume', bb))
+        for (cbb, t) in _mut_borrow_calls(body, l):
+            cn = callee_of(t)
+            out.add(('mutcall', cn, cbb))
+            for a in t['a'][1:]:
+                from_operand(a, d - 1)
 
     if isinstance(operand_or_local, int):
         from_local(operand_or_local, depth)
@@ -828,3 +889,93 @@ def reachable_fns(facts, roots, depth=8, through_traits=True, stop=()):
             if n not in seen:
                 work.append((n, d + 1, fn))
     return seen
+
+
+# --------------------------------------------------------------------------
+# forward taint (P9): does a value influence a decision / the result?
+# --------------------------------------------------------------------------
+def forward_taint(body, seeds):
+    """seeds: set of locals.  Returns (tainted locals, switch blocks whose operand
+    is tainted, True if the return place is tainted, calls receiving taint)."""
+    t = set(seeds)
+    changed = True
+    calls = []
+    while changed:
+        changed = False
+        for i, blk in enumerate(body.bbs):
+            if blk.get('c'):
+                continue
+            for s in blk['s']:
+                pl, rv = s[0], s[1]
+                if pl[0] in t:
+                    continue
+                ops = []
+                if rv.get('op') in ('ref', 'discr', 'rawptr'):
+                    ops.append(rv['pl'])
+                for a in rv.get('a', ()):
+                    p = op_place(a)
+                    if p:
+                        ops.append(p)
+                if any(p[0] in t for p in ops):
+                    t.add(pl[0])
+                    changed = True
+            tm = blk['t']
+            if tm['t'] == 'call':
+                if any(op_place(a) and op_place(a)[0] in t for a in tm['a']):
+                    d = tm['d'][0]
+                    if d not in t:
+                        t.add(d)
+                        changed = True
+    sw = []
+    for i, blk in enumerate(body.bbs):
+        tm = blk['t']
+        if tm['t'] == 'switch' and not blk.get('c'):
+            p = op_place(tm['on'])
+            if p and p[0] in t:
+                sw.append(i)
+        if tm['t'] == 'call' and not blk.get('c'):
+            if any(op_place(a) and op_place(a)[0] in t for a in tm['a']):
+                calls.append(i)
+    return t, sw, (0 in t), calls
+
+
+def field_read_locals(body, field):
+    """locals assigned from a read of (a place through) the named field 'name:Adt'"""
+    key = '.' + field
+    out = set()
+    for i, j, s in body.stmts():
+        pl, rv = s[0], s[1]
+        places = []
+        if rv.get('op') in ('ref', 'discr', 'rawptr'):
+            places.append(rv['pl'])
+        for a in rv.get('a', ()):
+            p = op_place(a)
+            if p:
+                places.append(p)
+        for p in places:
+            if any(x == key for x in p[1:] if isinstance(x, str)):
+                out.add(pl[0])
+    for i, blk in enumerate(body.bbs):
+        tm = blk['t']
+        if tm['t'] == 'call' and not blk.get('c'):
+            for a in tm['a']:
+                p = op_place(a)
+                if p and any(x == key for x in p[1:] if isinstance(x, str)):
+                    out.add(tm['d'][0])
+        if tm['t'] == 'switch' and not blk.get('c'):
+            p = op_place(tm['on'])
+            if p and any(x == key for x in p[1:] if isinstance(x, str)):
+                out.add(-1 - i)
+    return out
+
+
+def field_influences_result(body, field):
+    """P9: the field is read and the value reaches a switch or the return value."""
+    seeds = field_read_locals(body, field)
+    if not seeds:
+        return False, 'field is not read'
+    direct = [s for s in seeds if s < 0]
+    t, sw, ret, calls = forward_taint(body, {s for s in seeds if s >= 0})
+    if direct or sw or ret:
+        return True, f'read into {sorted(s for s in seeds if s >= 0)[:4]}, switches {sw[:4]}, returned={ret}'
+    return False, 'field is read but the value reaches neither a branch nor the result'
